@@ -25,6 +25,12 @@ fn frame_for(id: SeqId, cf: Cf, kind: u8, rng: &mut Rng) -> Vec<u8> {
             let f = seqs::reply_frame(id, &Reply { cf: donor, marker: 9 });
             rc::apdu(cf, rc::frame_body(&f))
         }
+        // a long valid body (extended APDU header, multi-byte BER lengths)
+        4 => {
+            let donor = if info.in_alphabet(cf) { cf } else { alpha[0] };
+            let f = seqs::reply_frame(id, &Reply { cf: donor, marker: 7 + 8 * (rng.below(30) as u8) });
+            rc::apdu(cf, rc::frame_body(&f))
+        }
         2 => {
             let donor = *alpha.iter().find(|a| **a != cf).unwrap_or(&alpha[0]);
             let donor = if alpha.len() == 1 { seqs::CF_STATUS } else { donor };
@@ -38,6 +44,13 @@ fn frame_for(id: SeqId, cf: Cf, kind: u8, rng: &mut Rng) -> Vec<u8> {
             rc::apdu(cf, &body)
         }
     }
+}
+
+fn frame_for_marker(id: SeqId, cf: Cf, marker: u8) -> Vec<u8> {
+    let info = seqs::info(id);
+    let donor = if info.in_alphabet(cf) { cf } else { info.alphabet()[0] };
+    let f = seqs::reply_frame(id, &Reply { cf: donor, marker });
+    rc::apdu(cf, rc::frame_body(&f))
 }
 
 fn plan_for(id: SeqId, cf: Cf, kind: u8, at_ack: bool, rng: &mut Rng) -> ExPlan {
@@ -87,6 +100,25 @@ impl Check for C15 {
 
     fn families(&self, tier: Tier, _seed: u64) -> Vec<Family<ExPlan>> {
         let mut fams = vec![];
+        // long valid bodies for every control field of every alphabet (and its neighbours)
+        {
+            let mut list: Vec<(SeqId, Cf)> = vec![];
+            for id in ALL_SEQS {
+                for cf in seqs::info(id).alphabet() {
+                    list.push((id, cf));
+                    list.push((id, (cf.0, cf.1.wrapping_add(1))));
+                }
+            }
+            let n = list.len() as u64;
+            fams.push(Family::new("long_bodies_extended_header", n * 30, true, move |i, rng| {
+                let (id, cf) = list[(i / 30) as usize];
+                let mut p = plan_for(id, cf, 4, false, rng);
+                // fixed marker per index so that the family is an enumeration
+                let f = frame_for_marker(id, cf, 7 + 8 * ((i % 30) as u8));
+                p.replies[0] = f;
+                p
+            }));
+        }
         match tier {
             Tier::Thorough => {
                 fams.push(Family::new(
